@@ -1,5 +1,10 @@
 import PyModeS.Models
 import PyModeS.Spec.CPR
+import PyModeS.Spec.Altitude
+import PyModeS.Spec.CRC
+import PyModeS.Spec.Velocity
+import PyModeS.Spec.Fields
+import PyModeS.Proofs.Uplink.Encoder
 import Driver.Fmt
 import Driver.FloatIO
 open PyModeS Driver
@@ -104,6 +109,14 @@ def handle (iasOfMach : Rat → Int → Rat) (ws : List String) : String :=
   | ["idcode", m] => fmtRes fmtDigits (idcode m.toList)
   | ["allzeros", m] => fmtRes fmtBool (allzerosB (hex2bin m))
   | ["cprNL", x] => fmtNat (cprNL (rat! x))
+  -- the Lean Spec definitions the theorems talk about, so that the harness can compare them with its own oracle
+  | ["spec.alt13", n] => fmtOpt fmtInt (Spec.alt13 n.toNat!)
+  | ["spec.remH", m] => fmtNat (Spec.remH (hex2bin m))
+  | ["spec.mov", n] => fmtOpt fmtRat (Spec.movementSpeed n.toNat!)
+  | ["spec.id13", a, b, c, d, x] => bitsToString (Spec.id13 a.toNat! b.toNat! c.toNat! d.toNat! (x == "1"))
+  | ["spec.idchar", c] => fmtOpt (fun ch => String.ofList [ch]) (Spec.idChar c.toNat!)
+  | ["spec.uplinkframe", d, a] => fmtMsg (Uplink.uplinkFrame (hex2bin d) a.toNat!)
+  | ["spec.encodeAP", d, a] => fmtMsg (CRC.encodeAP (hex2bin d) a.toNat!)
   | ["ns", calls] => nsOp calls
   | [op, m] =>
     let b := hex2bin m
